@@ -298,6 +298,7 @@ CHECKS["C11"] = dict(
         ob("VH_C11_open", dict(NI=2, NE=0), covers=["reported", "hidden"], bounds="<=2 include patterns"),
         ob("VH_C11_open", dict(NI=0, NE=2), covers=["reported", "hidden"], bounds="<=2 exclude patterns"),
         ob("VH_C11_open", dict(NI=1, NE=1), covers=["reported", "hidden"], bounds="<=1 include and <=1 exclude pattern"),
+        ob("VH_C11_send", {}, covers=["requested", "done"], bounds="the 5-entry views (names .a, b, d/, d/e, f; all group layouts; all hidden subsets) sent with the real Send to a reference receiver that validates the stream and requests every regular non-link entry"),
         ob("VH_C11_hardlinks", {}, covers=["link", "special-link", "hidden", "done"], bounds="5-entry view, all group layouts over regular / fifo / character-device inodes, all hidden subsets"),
         ob("VH_C11_open", dict(NI=2, NE=1), T, covers=["reported", "hidden"], bounds="<=2 include, <=1 exclude", max_paths=600000),
     ],
